@@ -18,7 +18,17 @@ CLAIM = dict(
          "lifted to every operation sequence (guard: no operation stores an empty row, the known finding), CombinedMultiDict "
          "read-through, Headers index / slice operations against Python's index normalisation and slice clamping, "
          "immutability (every mutator named by the mixins regenerated from the source returns TypeError and leaves the state "
-         "unchanged), the environ view. The case-folded comparison expressions and the mutator-blocking tables are regenerated "
+         "unchanged), the environ view; equality of MultiDict / Headers / HeaderSet is the stated relation (same key -> row map; "
+         "same lines up to key case and order-insensitive membership; same case-folded set) and an equivalence, equal immutable "
+         "values hash equal for every hash of their item set, copy / deepcopy / __reduce_ex__ / __getstate__ + __setstate__ "
+         "rebuild the abstract value on good states (refuted with a witness on a state holding an empty row, the known "
+         "finding), and on states that already hold an empty row exactly which reads still agree with the multimap without it "
+         "(getlist / get / in / len / keys-free reads; items, keys and the position of a later add are refuted with witnesses). "
+         "Copy independence over a heap of rows under the model (key -> reference to a row; in-place append, bind to a new row, "
+         "unbind, clear refine the functional operations): a primitive on one dict leaves every dict sharing no row with it "
+         "unchanged, copy() gives new rows, so any operation sequence on the copy leaves the original unchanged and the other "
+         "way round (refuted with a witness for a copy that shares rows); the same for Headers with one cell per object. "
+         "The case-folded comparison expressions and the mutator-blocking tables are regenerated "
          "from the source on every run; the models are compared with the implementation by differential execution "
          "(extracted OCaml model vs werkzeug) on exhaustive short and random long operation sequences with every public read "
          "after every step.",
@@ -26,8 +36,11 @@ CLAIM = dict(
          "the model's set, and/or/not); ExtrOcamlBasic extraction + driver; str.lower/upper/title modelled on ASCII (keys outside "
          "ASCII are outside the claimed domain; the harness still runs them on the implementation); Python dict = insertion-ordered "
          "association list, Python set = duplicate-free list compared as a set. NOT proved, compared on the implementation by the "
-         "harness only: copy independence (aliasing), pickle, copy.deepcopy, __hash__/__eq__ consistency, FileMultiDict, "
-         "get(type=...) conversions, None values. Known findings: HeaderSet item assignment can create a case-insensitive "
+         "harness only: the pickle byte stream itself, the correspondence of the heap model of copy independence "
+         "(the row copy vs[:] of MultiDict.__init__ and the copy / __reduce_ex__ / __getstate__ / __setstate__ / __hash__ / "
+         "__eq__ bodies are pinned statement by statement; the harness mutates each copy and re-reads the original), "
+         "FileMultiDict, get(type=...) conversions, None values. Known findings: CombinedMultiDict.__eq__ compares the empty "
+         "dict storage, so any two CombinedMultiDict are equal; HeaderSet item assignment can create a case-insensitive "
          "duplicate; MultiDict.setlist(k, []) / setlistdefault(k) leave an empty list on which items()/values() raise IndexError.",
     design="6/C08")
 
@@ -491,6 +504,42 @@ def gen() -> None:
     out += f"Definition env_iter_http_name (key : str) : str := {_expr(slice5(k1), {'__key5': '(skipn 5 key)'})}.\n"
     out += f"Definition env_iter_plain (key value : str) : bool := {_cond(i2.test, envi, {})}.\n"
     out += f"Definition env_iter_plain_name (key : str) : str := {_expr(y2.elts[0], {'key': 'key'})}.\n"
+    # ---- equality, hashing, copying, pickling: pinned bodies (the model's md_eqb / hd_eqb / hs_eqb, md_copy / md_deepcopy /
+    # imd_reduce / md_setstate and the hash theorem's reading "a function of the frozenset of the items" mirror them)
+    def pin(cls, meth, want):
+        got = [ast.unparse(x) for x in _body(_method(cls, meth))]
+        if got != want:
+            raise px.Unsupported(f"{cls.name}.{meth} changed: {got}")
+    IDM, IMM = px.find_class(mx, "ImmutableDictMixin"), px.find_class(mx, "ImmutableMultiDictMixin")
+    pin(IDM, "__hash__", ["if self._hash_cache is not None:\n    return self._hash_cache",
+                          "rv = self._hash_cache = hash(frozenset(self._iter_hashitems()))", "return rv"])
+    pin(IDM, "_iter_hashitems", ["return self.items()"])
+    pin(IMM, "_iter_hashitems", ["return self.items(multi=True)"])
+    pin(IMM, "__reduce_ex__", ["return (type(self), (list(self.items(multi=True)),))"])
+    MD = px.find_class(st, "MultiDict")
+    pin(MD, "__getstate__", ["return dict(self.lists())"])
+    pin(MD, "__setstate__", ["super().clear()", "super().update(value)"])
+    pin(MD, "copy", ["return self.__class__(self)"])
+    pin(MD, "deepcopy", ["return self.__class__(deepcopy(self.to_dict(flat=False), memo))"])
+    pin(MD, "__copy__", ["return self.copy()"])
+    pin(MD, "__deepcopy__", ["return self.deepcopy(memo=memo)"])
+    init = ast.unparse(_method(MD, "__init__"))
+    if "elif isinstance(mapping, MultiDict):\n        super().__init__(((k, vs[:]) for k, vs in mapping.lists()))" not in init:
+        raise px.Unsupported("MultiDict.__init__: the MultiDict branch no longer copies every row (vs[:])")
+    pin(px.find_class(st, "ImmutableMultiDict"), "copy", ["return MultiDict(self)"])
+    pin(px.find_class(st, "ImmutableMultiDict"), "__copy__", ["return self"])
+    pin(px.find_class(st, "CombinedMultiDict"), "copy", ["return MultiDict(self)"])
+    pin(px.find_class(st, "CombinedMultiDict"), "__reduce_ex__", ["return (type(self), (self.dicts,))"])
+    pin(H, "__eq__", ["if other.__class__ is not self.__class__:\n    return NotImplemented",
+                      "def lowered(item: tuple[str, ...]) -> tuple[str, ...]:\n    return (item[0].lower(), *item[1:])",
+                      "return set(map(lowered, other._list)) == set(map(lowered, self._list))"])
+    pin(H, "copy", ["return self.__class__(self._list)"])
+    for cls in (H, E):
+        hs_ = [n for n in cls.body if isinstance(n, ast.Assign) and ast.unparse(n.targets[0]) == "__hash__"]
+        if len(hs_) != 1 or ast.unparse(hs_[0].value) != "None":
+            raise px.Unsupported(f"{cls.name}.__hash__ is no longer None")
+    if [ast.unparse(b) for b in hs.bases] != ["cabc.MutableSet[str]"]:
+        raise px.Unsupported("HeaderSet bases changed (its == and hash come from collections.abc.MutableSet)")
     px.write_if_changed(os.path.join(COQ, "C08", "Gen.v"), out)
 
 
@@ -1730,6 +1779,49 @@ def run_eh(chk, ds, env: dict, ops, oracle=True) -> str:
 
 # ====================================================================== harness: protocol checks (not modelled)
 
+def heap_shape_checks(chk, ds):
+    """the four primitives of the heap model (C08/ProofsCopy.v) on the implementation, by object identity of the rows:
+    add appends to the row in place, __setitem__ / setlist / setdefault bind a newly built row (never the caller's list),
+    copy() / MultiDict(d) / deepcopy() bind new rows"""
+    def rows(m):
+        return {k: id(v) for k, v in dict.items(m)}
+    d = ds.MultiDict([("a", "1"), ("b", "2"), ("a", "3")])
+    before = rows(d)
+    d.add("a", "4")
+    d.update([("b", "5")])
+    if rows(d) != before or dict.__getitem__(d, "a") != ["1", "3", "4"]:
+        chk.fail("heap-shape", "add / update on an existing key does not append to the stored row in place", {"kind": "heap", "op": "add"})
+    mine = ["x", "y"]
+    d.setlist("a", mine)
+    d["b"] = "z"
+    r2 = rows(d)
+    if dict.__getitem__(d, "a") is mine or r2["a"] == before["a"] or r2["b"] == before["b"]:
+        chk.fail("heap-shape", "setlist / __setitem__ do not bind a newly built row", {"kind": "heap", "op": "setlist"})
+    mine.append("leak")
+    if d.getlist("a") != ["x", "y"]:
+        chk.fail("copy-independence", "setlist(k, l) keeps the caller's list: a later l.append shows in the MultiDict", {"kind": "heap", "op": "setlist-alias"})
+    dflt = ["p"]
+    d.setlistdefault("c", dflt)
+    dflt.append("leak")
+    if d.getlist("c") != ["p"]:
+        chk.fail("copy-independence", "setlistdefault(k, l) keeps the caller's list", {"kind": "heap", "op": "setlistdefault-alias"})
+    import copy
+    for name, c in (("copy()", d.copy()), ("MultiDict(d)", ds.MultiDict(d)), ("deepcopy()", d.deepcopy()), ("copy.copy", copy.copy(d)),
+                    ("ImmutableMultiDict(d).copy()", ds.ImmutableMultiDict(d).copy()), ("MultiDict(dict of lists)", ds.MultiDict(dict(d.lists())))):
+        if set(rows(c).values()) & set(rows(d).values()):
+            chk.fail("copy-independence", f"{name} shares a row list with the original", {"kind": "heap", "op": name})
+    src = {"k": ["1", "2"]}
+    c = ds.MultiDict(src)
+    c.add("k", "3")
+    if src != {"k": ["1", "2"]}:
+        chk.fail("copy-independence", "MultiDict(dict of lists) keeps the caller's lists: add on the MultiDict changes the dict", {"kind": "heap", "op": "init-alias"})
+    h = ds.Headers([("A", "1")])
+    hc = h.copy()
+    if hc._list is h._list:
+        chk.fail("copy-independence", "Headers.copy() shares the pair list", {"kind": "heap", "op": "Headers.copy"})
+    chk.count("heap shape of the primitives (oracle only)")
+
+
 def protocol_checks(chk, ds, rng, n):
     """copy independence, pickle, copy.deepcopy, __eq__/__hash__ consistency, get(type=...), None values,
     FileMultiDict: runtime protocol a functional model cannot exhibit; compared on the implementation only."""
@@ -1906,6 +1998,75 @@ def request_headers_view(chk, rng, n):
                 break
         chk.case(("request-headers", i, repr(hist)), nontrivial=True)
     chk.count("Request.headers after environ edits", n)
+
+
+def eq_checks(chk, ds, rng, R, n):
+    """__eq__ / __hash__ / deepcopy / pickle as logic: compared with the model (md_eqb, hd_eqb, hs_eqb, md_deepcopy,
+    imd_reduce) and judged against the abstract values (equal iff same rows / same folded pair set / same folded item
+    set; equal immutable values hash equal; rebuilding gives an equal value)"""
+    import copy
+    import pickle
+    keys, vals = ["a", "A", "b", "k"], ["1", "2"]
+
+    def rows():
+        d = {}
+        for _ in range(rng.randint(0, 3)):
+            d[rng.choice(keys)] = [rng.choice(vals) for _ in range(rng.randint(0 if rng.random() < 0.2 else 1, 2))]
+        return d
+
+    def build(r):
+        m = ds.MultiDict()
+        for k, vs in r.items():
+            m.setlist(k, vs)
+        return m
+    for i in range(n):
+        r1 = rows()
+        r2 = rng.choice([dict(reversed(list(r1.items()))), rows(), dict(r1), {k: list(reversed(v)) for k, v in r1.items()}])
+        m1, m2 = build(r1), build(r2)
+        case = {"kind": "eq", "rows": [r1, r2]}
+        eq = m1 == m2
+        R._push(f"mdeq {klists(r1)} {klists(r2)}", O(eq), 1)
+        if eq != (r1 == r2) or eq != (m2 == m1) or (m1 != m2) == eq:
+            chk.fail("eq-hash-consistency", f"MultiDict {r1!r} == {r2!r} is {eq}, equality of the rows is {r1 == r2}", case)
+        i1, i2 = ds.ImmutableMultiDict(m1), ds.ImmutableMultiDict(m2)
+        if (i1 == i2) != eq or (eq and all(r1.values()) and hash(i1) != hash(i2)):
+            chk.fail("eq-hash-consistency", f"ImmutableMultiDict {r1!r} / {r2!r}: == is {i1 == i2}, hashes {'equal' if hash(i1) == hash(i2) else 'differ'}", case)
+        # rebuilding: deepcopy (through to_dict and the constructor) and the immutable variant's pickle (through its pairs)
+        dc = copy.deepcopy(m1)
+        pi = pickle.loads(pickle.dumps(i1))
+        R._push(f"mdrebuild {klists(r1)}", OM(dc.lists()) + "|" + OM(pi.lists()), 1)
+        live = {k: v for k, v in r1.items() if v}
+        if _md_raw(dc) != live or _md_raw(pi) != live or type(pi) is not ds.ImmutableMultiDict or (all(r1.values()) and (dc != m1 or pi != i1)):
+            chk.fail("eq-hash-consistency" if all(r1.values()) else "multidict-empty-list-items",
+                     f"deepcopy / pickle of {r1!r} give {_md_raw(dc)!r} / {_md_raw(pi)!r}", case)
+        c1, c2 = ds.CombinedMultiDict([m1]), ds.CombinedMultiDict([m2])
+        if (c1 == c2) != (dict(c1.lists()) == dict(c2.lists())):
+            chk.fail("combined-eq-ignores-content", f"CombinedMultiDict([{r1!r}]) == CombinedMultiDict([{r2!r}]) is {c1 == c2}", case)
+        # Headers
+        p1 = [(rng.choice(keys), rng.choice(vals)) for _ in range(rng.randint(0, 3))]
+        p2 = rng.choice([[(k.swapcase(), v) for k, v in reversed(p1)], p1 + p1[:1], [(k, v) for k, v in p1[1:]],
+                         [(rng.choice(keys), rng.choice(vals)) for _ in range(rng.randint(0, 3))]])
+        h1, h2 = ds.Headers(p1), ds.Headers(p2)
+        eqh = h1 == h2
+        R._push(f"hdeq {kvs(p1, S)} {kvs(p2, S)}", O(eqh), 1)
+        want = {(k.lower(), v) for k, v in p1} == {(k.lower(), v) for k, v in p2}
+        if eqh != want or eqh != (h2 == h1):
+            chk.fail("eq-hash-consistency", f"Headers {p1!r} == {p2!r} is {eqh}, equality of the folded pair sets is {want}", {"kind": "eq", "pairs": [p1, p2]})
+        # HeaderSet (collections.abc.Set.__eq__)
+        l1 = rng.sample(["a", "B", "c", "Dd"], rng.randint(0, 3))
+        l2 = rng.choice([[x.swapcase() for x in reversed(l1)], l1[1:], l1 + ["zz"], rng.sample(["A", "b", "C", "x"], rng.randint(0, 3))])
+        s1, s2 = ds.HeaderSet(l1), ds.HeaderSet(l2)
+        eqs = s1 == s2
+        R._push(f"hseq {L(l1)} {L(l2)}", O(eqs), 1)
+        if eqs != ({x.lower() for x in l1} == {x.lower() for x in l2}) or eqs != (s2 == s1):
+            chk.fail("eq-hash-consistency", f"HeaderSet {l1!r} == {l2!r} is {eqs}", {"kind": "eq", "items": [l1, l2]})
+    for cls in (ds.Headers, ds.HeaderSet, ds.MultiDict):
+        try:
+            hash(cls())
+            chk.fail("eq-hash-consistency", f"{cls.__name__} is mutable but hashable", {"kind": "eq", "class": cls.__name__})
+        except TypeError:
+            pass
+    chk.count("eq / hash / deepcopy / pickle", n)
 
 
 def mapping_entry_points(chk, ds, R):
@@ -2208,8 +2369,10 @@ def run(chk: Check) -> None:
             chk.fail("multidict-model", f"constructor and update() disagree on {init[1]!r}: {_md_raw(c)!r} vs {_md_raw(u)!r}",
                      {"kind": "md", "init": init, "ops": []})
     request_headers_view(chk, rng, 60 if quick else 1500)
+    heap_shape_checks(chk, ds)
     protocol_checks(chk, ds, rng, 150 if quick else 3000)
     mapping_entry_points(chk, ds, R)
+    eq_checks(chk, ds, rng, R, 1500 if quick else 30000)
 
     # ---- model side
     exe = chk.build_modelrun(PID)
@@ -2255,7 +2418,7 @@ def main(chk: Check) -> None:
     except px.Unsupported as e:
         chk.broken("translator", "C08/Gen.v", str(e))
     chk.forbidden_scan()
-    if chk.coq_make(["C08/Proofs.vo", "C08/ProofsMD.vo", "C08/ProofsMM.vo", "C08/Extract.vo"]):
+    if chk.coq_make(["C08/Proofs.vo", "C08/ProofsMD.vo", "C08/ProofsMM.vo", "C08/ProofsEq.vo", "C08/ProofsCopy.vo", "C08/Extract.vo"]):
         chk.audit_props("C08/Props.v")
     else:
         chk.cov["obligations"] += 1
